@@ -22,6 +22,7 @@ CONSTANTS
   AbortOnError = %(abort)s
   ResetOnError = %(reset)s
   ReadTimeoutArmsWrite = %(rtw)s
+  WriteTimeoutArmsRead = %(wtr)s
   StaleTargetOptions = %(stale)s
   DialDeadlineStays = %(dds)s
   RefreshClosesTunnels = %(rct)s
@@ -49,9 +50,9 @@ INVARIANTS InOrder AllDelivered %s
 """
 
 
-def cfg(eof=False, raw=False, drop=False, abort=False, reset=False, rtw=False, stale=False, dds=False, rct=False, maxc=2, maxu=2, kinds=ALL_KINDS, gen=False, deadlock=True):
+def cfg(eof=False, raw=False, drop=False, abort=False, reset=False, rtw=False, wtr=False, stale=False, dds=False, rct=False, maxc=2, maxu=2, kinds=ALL_KINDS, gen=False, deadlock=True):
     tf = lambda b: "TRUE" if b else "FALSE"
-    return CFG % dict(eof=tf(eof), raw=tf(raw), drop=tf(drop), abort=tf(abort), reset=tf(reset), rtw=tf(rtw), stale=tf(stale), dds=tf(dds), rct=tf(rct), maxc=maxc, maxu=maxu,
+    return CFG % dict(eof=tf(eof), raw=tf(raw), drop=tf(drop), abort=tf(abort), reset=tf(reset), rtw=tf(rtw), wtr=tf(wtr), stale=tf(stale), dds=tf(dds), rct=tf(rct), maxc=maxc, maxu=maxu,
                       kinds=kinds, inv=PROPS + (" GenOut" if gen else ""),
                       dl="" if deadlock else "CHECK_DEADLOCK FALSE")
 
@@ -226,6 +227,7 @@ def build_cases(ctx, sink):
         return None, None, 0
     rng = random.Random(ctx.seed * 7919 + 17)
     tcp, ws, rtc, idle, dynb = [], [], [], [], []
+    pause = {"tcp": [], "tls": [], "dyn": [], "sni": []}
     n = 0
     for k in sorted(by):
         o = list(by[k].values())[0]
@@ -257,6 +259,17 @@ def build_cases(ctx, sink):
             c = dict(o)
             c.update(path="dynbin", spell=rng.choice(["tiny", "line", "mix"]), hello="tls12", split=0, id=n)
             dynb.append(c)
+            continue
+        if sc["wt"] == 1:
+            # listener with a write timeout of 200 ms (alone, or next to a read timeout of 5 s): the client pauses for 500 ms in mid-stream
+            for path in {"tcp": ["tcp", "tls"] + (["dyn"] if sc["proxy"] == 0 else []), "sni": ["sni"]}[sc["kind"]]:
+                n += 1
+                c = dict(o)
+                c.update(path=path, spell=rng.choice(["tiny", "line", "line"]), hello=rng.choice(["tls13", "tls12"]), split=rng.choice(SPLITS), id=n,
+                         conf=rng.choice(["wts", "wts", "wtsrt"]))
+                if path == "tls":
+                    c.update(tlsver=rng.choice([12, 13]), cork=True)
+                pause[path].append(c)
             continue
         if sc["rt"] == 1:
             # listener with a read timeout; every such case waits for the timeout to pass: a seeded sample is played
@@ -290,6 +303,8 @@ def build_cases(ctx, sink):
                 (ws if path == "ws" else tcp).append(c)
     tcp += rng.sample(rtc, min(len(rtc), 40 if not ctx.thorough else 480))
     tcp += rng.sample(idle, min(len(idle), 40 if not ctx.thorough else 480))
+    for path, (q, t) in (("tls", (16, 200)), ("tcp", (8, 120)), ("dyn", (6, 60)), ("sni", (10, 160))):
+        tcp += rng.sample(pause[path], min(len(pause[path]), t if ctx.thorough else q))
     tcp += rng.sample(dynb, min(len(dynb), 6 if not ctx.thorough else 40))
     return tcp, ws, len(by)
 
@@ -371,6 +386,8 @@ def run(ctx):
         "listener configurations: tcp.Server without timeouts, with a write timeout (5 s, never reached: small replies to a reading client), and - on scenarios about it - "
         "with a read timeout of 200 ms (alone and with the write timeout) where the upstream answers 500 ms after its trigger, i.e. after the client has been silent for longer than the timeout; "
         "there only the reply is judged (a read timeout may end the silent client's own direction), and a seeded sample of these scenarios is played because each waits for the timeout to pass",
+        "listeners with a write timeout of 200 ms (alone, and next to a read timeout of 5 s), also on the proto=tcp listener that terminates TLS: sessions with a pause - the upstream replies in mid-stream, "
+        "the client waits for the complete reply, is silent for 500 ms and then sends the rest (small messages: no write ever waits); everything is judged, a write timeout has no say about a silent client; a seeded sample is played",
         "proxy.dialtimeout: fabio's default (30 s) on all proxies, and 200 ms on scenarios in which the upstream speaks when the tunnel is 500 ms old; "
         "tcp-dynamic: a real fabio process (static routes: a tcp route on its own port and an http route whose host carries a port, refresh=100ms) carries a few tunnels that live across several refreshes",
         "ClientHellos on the sni path: real ones of ~200 B, ~1.5 KB, ~5 KB and ~12 KB (long ALPN lists), the long ones followed by more data than they are long",
@@ -386,6 +403,7 @@ def run(ctx):
             ("AbortOnError", dict(abort=True, kinds='{"tcp"}', deadlock=False, maxc=1, maxu=2)),
             ("ResetOnError", dict(reset=True, kinds='{"tcp"}', deadlock=False, maxc=1, maxu=2)),
             ("ReadTimeoutArmsWrite", dict(rtw=True, kinds='{"tcp"}', deadlock=False, maxc=1, maxu=1)),
+            ("WriteTimeoutArmsRead", dict(wtr=True, kinds='{"tcp"}', deadlock=False, maxc=2, maxu=1)),
             ("StaleTargetOptions", dict(stale=True, kinds='{"tcp"}', deadlock=False, maxc=1, maxu=1)),
             ("DialDeadlineStays", dict(dds=True, kinds='{"tcp"}', deadlock=False, maxc=1, maxu=1)),
             ("RefreshClosesTunnels", dict(rct=True, kinds='{"tcp"}', deadlock=False, maxc=1, maxu=1)))
@@ -461,7 +479,7 @@ def run(ctx):
             return
         s = r.summary
         ctx.log("%s: played %d cases (%s), %d failed, %d hung, %d not tunnelled, %.0fs"
-                % (sub, s["ran"], ", ".join("%s=%s" % (k, s[k]) for k in ("tcp", "sni", "dyn", "tls", "ws", "failing_direction", "read_timeout", "dynbin") if k in s), s["fails"], s["hangs"], s["skipped"], r.wall))
+                % (sub, s["ran"], ", ".join("%s=%s" % (k, s[k]) for k in ("tcp", "sni", "dyn", "tls", "ws", "failing_direction", "read_timeout", "write_timeout_pause", "dynbin") if k in s), s["fails"], s["hangs"], s["skipped"], r.wall))
         for nrec in r.of_kind("note")[:3]:
             ctx.log("note:", nrec.get("msg"))
         if s.get("unsupported"):
